@@ -75,13 +75,19 @@ static void cell(unsigned arg, unsigned f, pv_rng* rng, const char* hist, uint64
     /* create: only the three low bits of the argument count */
     if (f < 8) {
         unsigned carg = f | (pv_randn(rng, 2) ? 0 : (pv_rand64(rng) & 0xfffffff8u));
+        /* whatever the clock says at creation (far future, nanoseconds, before the epoch, the error value), the feature bits
+         * stored are the requested ones */
+        if (pv_randn(rng, 3) == 0) { static const uint64_t ODD[] = { 0, UINT64_MAX, UINT64_MAX - 1, 1ull << 63, 1700000000000000000ull, 1ull << 40, 0xFFFFFFFFull, 1ull << 33 }; pv_w->time_value = pv_randn(rng, 2) ? ODD[pv_randn(rng, sizeof ODD / sizeof *ODD)] : pv_rand64(rng); PV_COUNT("cell.create.with_an_extreme_clock", 1); }
+        else pv_w->time_value = PV_EPOCH + pv_rand64(rng) % (1024 * PV_STEP);
         s = NULL; st = pv_api_create(carg, &s); PV_COUNT("evaluations", 1);
         expect_status("create", st, sup, arg, f, hist);
         if (st == POLYSEED_OK) {
             check_getters(s, f, "create");
             uint8_t* o = malloc(32); pv_api_store(s, o);
             unsigned stored = ((o[8] | ((unsigned)o[9] << 8)) >> 10);
-            if (stored != f) pv_violation("C10/create-stores-other-bits", "create(0x%x) stored feature bits %u", carg, stored);
+            if (stored != f) pv_violation("C10/create-stores-other-bits", "create(0x%x) at clock %llu stored feature bits %u", carg, (unsigned long long)pv_w->time_value, stored);
+            /* and the seed it made is a seed like any other: it loads again */
+            { polyseed_data* t2 = NULL; int sl = pv_api_load(o, &t2); if (sl != POLYSEED_OK) pv_violation("C10/created-seed-does-not-load", "create(0x%x) at clock %llu: load(store(seed)) -> %s", carg, (unsigned long long)pv_w->time_value, pv_status_name(sl)); else pv_api_free(t2); }
             free(o); pv_api_free(s);
         }
         /* a request for a feature that is not enabled is refused as unsupported - also when the allocator happens to be failing
